@@ -158,6 +158,7 @@ def run(ctx):
 
     # ------------------------------------------------------------------ R01.4
     r = ctx.rule("R01.4", "flush after every successful parse: write() flushes (chunk, consumed) before touching the buffer; end() hands the whole chunk to finish, which flushes (input, input.len()) first", "E-MIR", floor=4)
+    sm.clause_finish_order(r, mir)
     w = mir.fn("TransformStream::write")
     parse = list(w.calls(r"Parser::parse$"))
     flush = list(w.calls(r"Dispatcher::flush_remaining_input$"))
